@@ -1952,7 +1952,9 @@ func (w *Walker) walkField(ref int, skipFor SkipVisitors) {
 	}
 
 	if w.document.Fields[ref].HasDirectives {
-		for _, i := range w.document.Fields[ref].Directives.Refs {
+		// a visitor may remove the directive it is visiting (ast.RemoveDirectiveFromNode shifts the
+		// refs in place): range over a copy so that the directive after a removed one is still visited
+		for _, i := range arena.SliceAppend(w.arena, nil, w.document.Fields[ref].Directives.Refs...) {
 			w.walkDirective(i, skipFor)
 			if w.stop {
 				return
@@ -2150,7 +2152,8 @@ func (w *Walker) walkFragmentSpread(ref int, skipFor SkipVisitors) {
 	}
 
 	if w.document.FragmentSpreads[ref].HasDirectives {
-		for _, i := range w.document.FragmentSpreads[ref].Directives.Refs {
+		// a copy, as in walkField: the visited directive may be removed
+		for _, i := range arena.SliceAppend(w.arena, nil, w.document.FragmentSpreads[ref].Directives.Refs...) {
 			w.walkDirective(i, skipFor)
 		}
 	}
@@ -2219,7 +2222,8 @@ func (w *Walker) walkInlineFragment(ref int, skipFor SkipVisitors) {
 	}
 
 	if w.document.InlineFragments[ref].HasDirectives {
-		for _, i := range w.document.InlineFragments[ref].Directives.Refs {
+		// a copy, as in walkField: the visited directive may be removed
+		for _, i := range arena.SliceAppend(w.arena, nil, w.document.InlineFragments[ref].Directives.Refs...) {
 			w.walkDirective(i, skipFor)
 		}
 	}
